@@ -73,7 +73,7 @@ func runC14(c *Ctx) {
 		bri := -1.0
 		w.eachInstr(newUDP, func(in ssa.Instruction) {
 			if st, ok := in.(*ssa.Store); ok {
-				if fa, ok := st.Addr.(*ssa.FieldAddr); ok && fieldOf(fa).Name() == "bindingRefreshInterval" {
+				if fa, ok := st.Addr.(*ssa.FieldAddr); ok && nm(fieldOf(fa)) == "bindingRefreshInterval" {
 					if k, isK := constInt(st.Val); isK {
 						bri = float64(k) / 1e9
 					}
@@ -233,7 +233,7 @@ func runC14(c *Ctx) {
 						okSet = true
 					}
 					if r, isR := i2.(*ssa.Return); isR {
-						if g := globalLoad(w.resolveLoad(r.Results[len(r.Results)-1])); g != nil && g.Name() == "errTryAgain" {
+						if g := globalLoad(w.resolveLoad(r.Results[len(r.Results)-1])); g != nil && nm(g) == "errTryAgain" {
 							okRet = true
 						}
 					}
@@ -281,7 +281,7 @@ func runC14(c *Ctx) {
 					if len(r.Results) == 0 {
 						continue
 					}
-					if g := globalLoad(w.resolveLoad(r.Results[len(r.Results)-1])); g != nil && g.Name() == "errTryAgain" {
+					if g := globalLoad(w.resolveLoad(r.Results[len(r.Results)-1])); g != nil && nm(g) == "errTryAgain" {
 						sentinelFns[fn] = true
 						changed = true
 					}
@@ -313,7 +313,7 @@ func runC14(c *Ctx) {
 				}
 				call, _ := cs.(*ssa.Call)
 				// a Refresh sent with dontWait=true does not process a response: no 438 can come back
-				if sf.Name() == "refreshAllocation" && len(cs.Common().Args) == 3 {
+				if nm(sf) == "refreshAllocation" && len(cs.Common().Args) == 3 {
 					if k, isK := cs.Common().Args[2].(*ssa.Const); isK && k.Value != nil && constant.BoolVal(k.Value) {
 						c.Triv("C14.3", fname(caller), "retry "+sf.Name(), w.instrPos(cs), "dontWait=true: the response is not awaited, nothing to retry")
 						continue
@@ -328,15 +328,15 @@ func runC14(c *Ctx) {
 						switch x := in.(type) {
 						case *ssa.Call:
 							if x.Call.StaticCallee() != nil && x.Call.StaticCallee().String() == "errors.Is" {
-								if g := globalLoad(x.Call.Args[1]); g != nil && g.Name() == "errTryAgain" {
+								if g := globalLoad(x.Call.Args[1]); g != nil && nm(g) == "errTryAgain" {
 									tested = x.Call.Args[0]
 								}
 							}
 						case *ssa.BinOp:
 							if x.Op == token.EQL || x.Op == token.NEQ {
-								if g := globalLoad(x.Y); g != nil && g.Name() == "errTryAgain" {
+								if g := globalLoad(x.Y); g != nil && nm(g) == "errTryAgain" {
 									tested = x.X
-								} else if g := globalLoad(x.X); g != nil && g.Name() == "errTryAgain" {
+								} else if g := globalLoad(x.X); g != nil && nm(g) == "errTryAgain" {
 									tested = x.Y
 								}
 							}
@@ -357,6 +357,38 @@ func runC14(c *Ctx) {
 						}
 						if blockReaches(call.Block(), call.Block()) {
 							okLoop = true
+							return
+						}
+						// the retry may be a second call site (first attempt before the loop,
+						// further attempts inside it): from the edge on which the result is the
+						// sentinel another call of the same function is reachable
+						tv, _ := in.(ssa.Value)
+						for _, b := range caller.Blocks {
+							iff, isIf := b.Instrs[len(b.Instrs)-1].(*ssa.If)
+							if !isIf || len(b.Succs) != 2 || b.Succs[0] == b.Succs[1] {
+								continue
+							}
+							for i, succ := range b.Succs {
+								isSentinelEdge := false
+								for _, f := range normCond(iff.Cond, i == 0) {
+									switch {
+									case f.Op == "true" && f.Truth && f.X == tv:
+										isSentinelEdge = true
+									case f.Op == "==" && f.Truth:
+										if bo, isBO := tv.(*ssa.BinOp); isBO && ((f.X == bo.X && f.Y == bo.Y) || (f.X == bo.Y && f.Y == bo.X)) {
+											isSentinelEdge = true
+										}
+									}
+								}
+								if !isSentinelEdge {
+									continue
+								}
+								for _, cs2 := range w.callsTo(sf) {
+									if cs2.Parent() == caller && (cs2.Block() == succ || blockReaches(succ, cs2.Block())) {
+										okLoop = true
+									}
+								}
+							}
 						}
 					})
 				}
@@ -381,21 +413,70 @@ func runC14(c *Ctx) {
 			c.Anchor("C14.4", tn+".Close")
 			bad := ""
 			n := 0
-			for _, r := range returnsOf(cl) {
-				// the already-closed guard returns errAlreadyClosed
-				if g := globalLoad(w.resolveLoad(r.Results[0])); g != nil && strings.Contains(g.Name(), "AlreadyClosed") {
-					continue
+			isRefresh0 := func(in ssa.Instruction) bool {
+				rc, ok := in.(*ssa.Call)
+				if !ok || rc.Call.StaticCallee() != ra {
+					return false
 				}
-				n++
-				rc, _ := callOf(w.resolveLoad(r.Results[0]))
-				ok := rc != nil && rc.Call.StaticCallee() == ra
-				if ok {
-					k, isK := constInt(rc.Call.Args[1])
-					ok = isK && k == 0
+				k, isK := constInt(w.resolveLoad(rc.Call.Args[1]))
+				return isK && k == 0
+			}
+			// mustRefresh: every return of fn that is not the already-closed guard is preceded on
+			// all paths by refreshAllocation(0, …), directly or in a helper held to the same rule
+			memo := map[*ssa.Function]int{}
+			var mustRefresh func(fn *ssa.Function, count bool) bool
+			mustRefresh = func(fn *ssa.Function, count bool) bool {
+				switch memo[fn] {
+				case 1:
+					return false
+				case 2:
+					return true
 				}
-				if !ok {
-					bad = "the return at " + w.instrPos(r) + " does not send Refresh with lifetime 0: the allocation stays at the server until it expires"
+				memo[fn] = 1
+				hit := func(in ssa.Instruction) bool {
+					if isRefresh0(in) {
+						return true
+					}
+					if call, ok := in.(*ssa.Call); ok {
+						if h := call.Call.StaticCallee(); h != nil && h != ra && w.IsMod[h] && len(h.Blocks) > 0 && h.Object() != nil && !h.Object().Exported() {
+							return mustRefresh(h, false)
+						}
+					}
+					return false
 				}
+				okAll := true
+				for _, r := range returnsOf(fn) {
+					if len(r.Results) == 0 {
+						okAll = false
+						continue
+					}
+					// the already-closed guard returns errAlreadyClosed
+					guard := true
+					for _, lf := range w.guardedLeaves(r.Results[len(r.Results)-1], r) {
+						if g := globalLoad(w.resolveLoad(lf.val)); g == nil || !strings.Contains(g.Name(), "AlreadyClosed") {
+							guard = false
+						}
+					}
+					if guard {
+						continue
+					}
+					if count {
+						n++
+					}
+					if !allPathsTo(fn, r.Block(), hit) {
+						okAll = false
+						if bad == "" {
+							bad = "the return at " + w.instrPos(r) + " does not send Refresh with lifetime 0: the allocation stays at the server until it expires"
+						}
+					}
+				}
+				if okAll {
+					memo[fn] = 2
+				}
+				return okAll
+			}
+			if !mustRefresh(cl, true) && bad == "" {
+				bad = "a closing path does not send Refresh with lifetime 0"
 			}
 			if bad == "" && n > 0 {
 				c.OK("C14.4", fname(cl), "Refresh(0)", w.pos(cl.Pos()), "returns refreshAllocation(0, dontWait)")
@@ -430,7 +511,7 @@ func runC14(c *Ctx) {
 // dontWaitSite: a refreshAllocation(…, true) call: the response is not awaited.
 func dontWaitSite(cs ssa.CallInstruction) bool {
 	cal := cs.Common().StaticCallee()
-	if cal == nil || cal.Name() != "refreshAllocation" || len(cs.Common().Args) != 3 {
+	if cal == nil || nm(cal) != "refreshAllocation" || len(cs.Common().Args) != 3 {
 		return false
 	}
 	k, ok := cs.Common().Args[2].(*ssa.Const)
